@@ -3,7 +3,7 @@ from fractions import Fraction as Fr
 import math
 from harness import sx
 
-N_QUICK, N_THOROUGH = 400, 8000
+N_QUICK, N_THOROUGH = 900, 8000
 CASE_TIMEOUT = 60
 RULE = ("what=plot1 (55%): 1-D histograms (1..7 irregular consecutive bins, int / float contents with zeros, custom errors2, name / "
         "title / axis name) x kind in matplotlib bar / scatter / line / fill / step, plotly bar / scatter / line x density x "
@@ -90,10 +90,12 @@ def gen(rng, n, tier):
             want = [meta["title"] if meta["title"] != "none" else "", "axis0" if meta["names"] == "none" else "xx", "axis1" if meta["names"] == "none" else "yy"]
             if kind == "polar_map": want = "n/a"
             if kind == "polar_map" and meta["names"] == "none": pass
+            co = rng.choice(["none", "min", "min", "log", ["minval", rng.choice(freq) if freq else 0]]) if kind == "map" else "none"
             yield [["bucket", "plot2/" + kind + ("/regular" if regular else "")], ["what", "plot2"], ["kind", kind], ["axes", axes], ["freq", freq], ["ints", "T" if ints else "F"],
-                   ["density", rng.choice("TF") if kind != "plotly_map" else "F"], ["show_zero", rng.choice("TF")], ["cmap", rng.choice(["none", "Greys", "viridis", "coolwarm"])],
+                   ["density", rng.choice("TF") if kind != "plotly_map" else "F"], ["show_zero", rng.choice("TF") if co == "none" else rng.choice("TFFF")], ["cmap", rng.choice(["none", "Greys", "viridis", "coolwarm"])],
                    ["meta", [[k, v] for k, v in meta.items()]], ["want_labels", want if kind != "plotly_map" else "n/a"],
-                   ["layout", rng.choice(["C", "C", "F"] + (["T", "T"] if meta["names"] != "none" else ["F"]))]]
+                   ["layout", rng.choice(["C", "C", "F"] + (["T", "T"] if meta["names"] != "none" else ["F"]))],
+                   ["cmap_opt", co]]
         elif r < 0.88:
             level = rng.choice(["sec", "min", "hour", "day", "edge", "center"])
             mult = rng.choice([1, 1, 2, 5, 10, 15, 30, 0.5]) if level in ("sec", "day") else rng.choice([1, 1, 2, 5, 10, 15, 30])
@@ -253,6 +255,12 @@ def _plot2(d, f):
     kind = d["kind"]; kw = {}
     if d["density"] == "T": kw["density"] = True
     if d["cmap"] != "none" and kind != "plotly_map": kw["cmap"] = d["cmap"]
+    co = d.get("cmap_opt", "none")      # options of the colour scale: they change colours, never which cells are drawn
+    if kind == "map" and co != "none":
+        vals = [float(x) for x in d["freq"]]
+        if co == "log" and min(vals) > 0: kw["cmap_normalize"] = "log"
+        elif co == "min": kw["cmap_min"] = "min"
+        elif isinstance(co, list): kw["cmap_min"] = float(co[1])
     out = [["axes", [[[float(a), float(b)] for a, b in bb.bins.tolist()] for bb in h._binnings]], ["freq", f(h.frequencies)]]
     try:
         boxes = []
